@@ -375,10 +375,35 @@ func (h *Harness) Step(a Action) []Mismatch {
 			e.MustClose = true
 			e.MayCodes = map[byte]bool{1: true}
 			nc.open = false
+		case "accept", "accept-or-code2":
+			// a CONNECT the model accepts (fields in a.Opts)
+			if !m.auth {
+				e.Must = []*refcodec.Packet{{Type: refcodec.CONNACK, ReturnCode: 4}}
+				e.MustClose = true
+				nc.open = false
+				break
+			}
+			if a.Expect == "accept-or-code2" {
+				// decided after the fact
+				e.MayCodes = map[byte]bool{2: true, 0: true}
+				nc.open = false
+				e.MayClose = true
+				break
+			}
+			nc.accepted = true
+			nc.cid, nc.clean, nc.will, nc.keepAlive = a.Opts.ClientID, a.Opts.Clean, a.Opts.Will, a.Opts.KeepAlive
+			nc.sess = &msession{subs: map[string]byte{}}
+			m.sessions[nc.cid] = nc.sess
+			e.Must = []*refcodec.Packet{{Type: refcodec.CONNACK}}
 		case "pending":
 			// incomplete CONNECT: nothing may happen until the connect timeout
 		default:
 			return []Mismatch{{"harness", "connectraw cannot expect " + a.Expect}}
+		}
+	case "cutraw":
+		rc.Cut()
+		if mc != nil {
+			mc.open = false
 		}
 	case "send":
 		// bytes on a connection that was not accepted: no effect, no answer
@@ -490,6 +515,7 @@ func (h *Harness) compare(exps map[string]*Exp) []Mismatch {
 		mc := h.M.conns[n]
 		closed := c.EOF || c.ReadErr != ""
 		switch {
+		case e != nil && e.MayClose:
 		case e != nil && e.MustClose && !closed && !c.Dead:
 			mm = append(mm, Mismatch{"closed", fmt.Sprintf("connection %s is still open, it had to be closed", n)})
 		case mc != nil && mc.open && closed:
